@@ -388,9 +388,14 @@ class World(object):
 class UnknownModule(N.NativeObj):
     def __init__(self, name):
         self.name = name
+        self.classes = {}
 
     def getattr(self, ex, name):
-        return Missing('%s.%s (module outside the verified sources)' % (self.name, name))
+        if name in self.classes:
+            return self.classes[name]
+        m = Missing('%s.%s (module outside the verified sources)' % (self.name, name))
+        m.qual = '%s.%s' % (self.name, name)
+        return m
 
 
 class LoggingModule(N.NativeObj):
@@ -1344,6 +1349,14 @@ def _resolve_class(self, ex, name):
         if modname is None:
             raise Unsupported('cannot resolve class %r' % name)
     m = self.import_module(ex, modname)
+    if isinstance(getattr(m, 'native', None), UnknownModule) and '.' not in path:
+        # exception class of a module outside the verified sources (named in an assumed raises-clause): a
+        # fresh subclass of Exception, the same object for every later `except mod.Cls`
+        fc = m.native.classes.get(path)
+        if fc is None:
+            fc = ClassVal(path, '%s.%s' % (modname, path), [self.bclasses['Exception']], module=m)
+            m.native.classes[path] = fc
+        return fc
     v = m
     for p in path.split('.'):
         if isinstance(v, ModuleVal):
